@@ -68,7 +68,7 @@ class Integrate(_SweepBase):
 
     def post(self, st, old, result, exc):
         L, M = st.L, st.M
-        Q, dt = L.sweep.coll.Qmat, L.dt
+        Q, dt = L.sweep.coll.Qmat, L.params.dt
         yield 'returns_M_values', exc is None and len(result) == M
         if exc is not None:
             return
@@ -81,7 +81,7 @@ class Integrate(_SweepBase):
 
     def canary(self, st, old, result, exc):
         L, M = st.L, st.M
-        Q, dt = L.sweep.coll.Qmat, L.dt
+        Q, dt = L.sweep.coll.Qmat, L.params.dt
         # wrong on purpose: transposed Q
         yield 'canary:transposed_Q', veq(result[M - 1], vsum(dt * Q[j, M] * ftot(st.old_f[j]) for j in range(1, M + 1))) if M > 1 else veq(result[0], 0)
 
@@ -100,7 +100,7 @@ class UpdateNodes(_SweepBase):
 
     def rhs_expected(self, st, m, wrong=None):
         L, M, sw = st.L, st.M, st.L.sweep
-        Q, dt = sw.coll.Qmat, L.dt
+        Q, dt = sw.coll.Qmat, L.params.dt
         r = cp(st.old_u[0])
         for j in range(1, M + 1):
             r += dt * Q[m + 1, j] * ftot(st.old_f[j])
@@ -120,12 +120,12 @@ class UpdateNodes(_SweepBase):
 
     def post(self, st, old, result, exc):
         L, M, sw, P = st.L, st.M, st.L.sweep, st.L.prob
-        dt = L.dt
+        dt = L.params.dt
         yield 'returns_normally', exc is None
         if exc is not None:
             return
         for m in range(M):
-            tm = L.time + dt * sw.coll.nodes[m]
+            tm = L.status.time + dt * sw.coll.nodes[m]
             rhs = self.rhs_expected(st, m)
             rec = P.find_solve(L.u[m + 1])
             if not self.has_QI:
@@ -192,7 +192,7 @@ class EndPoint(_SweepBase):
         if copy_mode:
             yield 'uend:last_node', veq(L.uend, st.old_u[M])
         else:
-            exp = cp(st.old_u[0]) + vsum(L.dt * sw.coll.weights[m] * ftot(st.old_f[m + 1]) for m in range(M))
+            exp = cp(st.old_u[0]) + vsum(L.params.dt * sw.coll.weights[m] * ftot(st.old_f[m + 1]) for m in range(M))
             if st.old_tau[M - 1] is not None:
                 exp += st.old_tau[M - 1]
             yield 'uend:quadrature', veq(L.uend, exp)
@@ -205,7 +205,7 @@ class EndPoint(_SweepBase):
         if copy_mode:
             yield 'canary:uend_is_u0', veq(L.uend, st.old_u[0])
         else:
-            exp = cp(st.old_u[0]) + vsum(L.dt * sw.coll.weights[m] * ftot(st.old_f[m + 1]) for m in range(M))
+            exp = cp(st.old_u[0]) + vsum(L.params.dt * sw.coll.weights[m] * ftot(st.old_f[m + 1]) for m in range(M))
             yield 'canary:weights_without_dt', veq(L.uend, cp(st.old_u[0]) + vsum(sw.coll.weights[m] * ftot(st.old_f[m + 1]) for m in range(M)) + (st.old_tau[M - 1] if st.old_tau[M - 1] is not None else 0))
 
 
@@ -334,7 +334,7 @@ class MIUpdateNodes(MultiImplicitBase):
 
     def post(self, st, old, result, exc):
         L, M, sw, P = st.L, st.M, st.L.sweep, st.L.prob
-        dt, Q = L.dt, sw.coll.Qmat
+        dt, Q = L.params.dt, sw.coll.Qmat
         yield 'returns_normally', exc is None
         if exc is not None:
             return
@@ -342,7 +342,7 @@ class MIUpdateNodes(MultiImplicitBase):
         if len(P.solves) != 2 * M:
             return
         for m in range(M):
-            tm = L.time + dt * sw.coll.nodes[m]
+            tm = L.status.time + dt * sw.coll.nodes[m]
             s1, s2 = P.solves[2 * m], P.solves[2 * m + 1]
             r1 = cp(st.old_u[0])
             for j in range(1, M + 1):
@@ -436,7 +436,7 @@ class _VerletBase(_SweepBase):
 def verlet_integral(st, m):
     """(pos, vel) of dt*Q*F in the second-order form, row m (0-based)"""
     L, M, sw = st.L, st.M, st.L.sweep
-    dt, Q = L.dt, sw.coll.Qmat
+    dt, Q = L.params.dt, sw.coll.Qmat
     pos = vsum(dt * (dt * sw.QQ[m + 1, j] * st.old_f[j]) + dt * Q[m + 1, j] * st.old_u[0].vel for j in range(1, M + 1))
     vel = vsum(dt * Q[m + 1, j] * st.old_f[j] for j in range(1, M + 1))
     return pos, vel
@@ -464,7 +464,7 @@ class VerletIntegrate(_VerletBase):
         yield from frame_clauses(old, snapshot({'L': st.L}), frame=())
 
     def canary(self, st, old, result, exc):
-        yield 'canary:pos_without_initial_velocity', veq(result[0].pos, vsum(st.L.dt * (st.L.dt * st.L.sweep.QQ[1, j] * st.old_f[j]) for j in range(1, st.M + 1)))
+        yield 'canary:pos_without_initial_velocity', veq(result[0].pos, vsum(st.L.params.dt * (st.L.params.dt * st.L.sweep.QQ[1, j] * st.old_f[j]) for j in range(1, st.M + 1)))
 
 
 class VerletUpdateNodes(_VerletBase):
@@ -480,7 +480,7 @@ class VerletUpdateNodes(_VerletBase):
 
     def post(self, st, old, result, exc):
         L, M, sw, P = st.L, st.M, st.L.sweep, st.L.prob
-        dt = L.dt
+        dt = L.params.dt
         yield 'returns_normally', exc is None
         if exc is not None:
             return
@@ -498,14 +498,14 @@ class VerletUpdateNodes(_VerletBase):
             yield f'f{m + 1}:is_eval_f', er is not None
             if er is not None:
                 yield f'f{m + 1}:force_at_new_position', veq(er.u.pos, L.u[m + 1].pos)
-                yield f'f{m + 1}:at_node_time', seq(er.t, L.time + dt * sw.coll.nodes[m])
+                yield f'f{m + 1}:at_node_time', seq(er.t, L.status.time + dt * sw.coll.nodes[m])
         yield 'status.updated', L.status.updated is True
         yield from frame_clauses(old, snapshot({'L': L}),
                                  frame=[f'L.u[{m}]' for m in range(1, M + 1)] + [f'L.f[{m}]' for m in range(1, M + 1)] + ['L.status.updated', 'L.prob'])
 
     def canary(self, st, old, result, exc):
         L, sw = st.L, st.L.sweep
-        yield 'canary:velocity_without_implicit_term', veq(L.u[1].vel, L.u[1].vel - L.dt * sw.QT[1, 1] * L.f[1])
+        yield 'canary:velocity_without_implicit_term', veq(L.u[1].vel, L.u[1].vel - L.params.dt * sw.QT[1, 1] * L.f[1])
 
 
 class VerletEndPoint(_VerletBase):
@@ -521,7 +521,7 @@ class VerletEndPoint(_VerletBase):
 
     def post(self, st, old, result, exc):
         L, M, sw = st.L, st.M, st.L.sweep
-        dt = L.dt
+        dt = L.params.dt
         yield 'returns_normally', exc is None
         if exc is not None:
             return
@@ -634,12 +634,12 @@ class RKUpdateNodes(_RKBase):
 
     def post(self, st, old, result, exc):
         L, M, sw, P = st.L, st.M, st.L.sweep, st.L.prob
-        dt, A, c = L.dt, sw.coll.Qmat, sw.coll.nodes
+        dt, A, c = L.params.dt, sw.coll.Qmat, sw.coll.nodes
         yield 'returns_normally', exc is None
         if exc is not None:
             return
         for m in range(M):
-            tm = L.time + dt * c[m + 1]
+            tm = L.status.time + dt * c[m + 1]
             rhs = cp(st.u0) + vsum(dt * A[m + 1, j] * L.f[j] for j in range(1, m + 1))
             rec = P.find_solve(L.u[m + 1])
             if rec is not None:
@@ -666,7 +666,7 @@ class RKUpdateNodes(_RKBase):
             val = rec.rhs if rec is not None else L.u[M]
             yield 'canary:last_stage_ignores_previous_stages', veq(val, st.u0)
         else:
-            yield 'canary:stage_is_u0_plus_f', veq(L.u[1], st.u0 + L.dt * L.f[1])
+            yield 'canary:stage_is_u0_plus_f', veq(L.u[1], st.u0 + L.params.dt * L.f[1])
 
 
 class RKEndPoint(_RKBase):
@@ -690,7 +690,7 @@ class RKEndPoint(_RKBase):
 
     def post(self, st, old, result, exc):
         L, M, sw, inst = st.L, st.M, st.L.sweep, st.inst
-        dt = L.dt
+        dt = L.params.dt
         yield 'returns_normally', exc is None
         if exc is not None:
             return
@@ -747,7 +747,7 @@ class Predict(_SweepBase):
         if exc is not None:
             return
         e0 = P.find_eval(L.f[0])
-        yield 'f0:rhs_at_u0_and_step_start', e0 is not None and bool(veq(e0.u, st.u0)) is True and bool(seq(e0.t, L.time)) is True
+        yield 'f0:rhs_at_u0_and_step_start', e0 is not None and bool(veq(e0.u, st.u0)) is True and bool(seq(e0.t, L.status.time)) is True
         for m in range(1, M + 1):
             if st.inst['guess'] in ('spread', 'copy'):
                 yield f'u{m}:copy_of_u0', bool(veq(L.u[m], st.u0)) is True and L.u[m] is not st.u0_obj and all(L.u[m] is not L.u[j] for j in range(m))
@@ -755,7 +755,7 @@ class Predict(_SweepBase):
                 yield f'u{m}:zero', veq(L.u[m], 0)
             if st.inst['guess'] == 'spread':
                 em = P.find_eval(L.f[m])
-                yield f'f{m}:rhs_at_node_time', em is not None and bool(seq(em.t, L.time + L.dt * sw.coll.nodes[m - 1])) is True and bool(veq(em.u, st.u0)) is True
+                yield f'f{m}:rhs_at_node_time', em is not None and bool(seq(em.t, L.status.time + L.params.dt * sw.coll.nodes[m - 1])) is True and bool(veq(em.u, st.u0)) is True
             elif st.inst['guess'] == 'copy':
                 yield f'f{m}:copy_of_f0', bool(veq(L.f[m], L.f[0])) is True and L.f[m] is not L.f[0]
             else:
